@@ -111,6 +111,26 @@ ustr2u16(const uint8_t *str, const size_t str_len) {
 	STR2UNUM(str, str_len, uint16_t);
 }
 
+/* Strict: decimal digits only, value <= max_val; EINVAL otherwise. */
+static inline int
+str2u16_chk(const char *str, const size_t str_len, const uint16_t max_val,
+    uint16_t *res_ret) {
+	uint32_t res = 0;
+
+	if (NULL == str || 0 == str_len || 5 < str_len || NULL == res_ret)
+		return (EINVAL);
+	for (size_t i = 0; i < str_len; i ++) {
+		if ('0' > str[i] || '9' < str[i])
+			return (EINVAL);
+		res *= 10;
+		res += (uint32_t)(str[i] - '0');
+	}
+	if (max_val < res)
+		return (EINVAL);
+	(*res_ret) = (uint16_t)res;
+	return (0);
+}
+
 static inline uint32_t
 str2u32(const char *str, const size_t str_len) {
 
